@@ -330,6 +330,7 @@ class Check:
             "negative_controls": [],
         }
         self.assumptions = []
+        self.failed_controls = []
         self._distinct = set()
 
     # --- coverage bookkeeping
@@ -375,10 +376,17 @@ class Check:
         """Negative control.  A control that presupposes a correct implementation (impl_dependent) is
         recorded but not enforced once this run has already found violations: a broken tree must be
         reported as exit 1, never as a machinery failure."""
-        enforced = not (impl_dependent and self.violations)
-        self.cov["negative_controls"].append({"control": name, "fired": bool(fired), "detail": detail, "enforced": enforced})
-        if not fired and enforced:
-            raise MachineryError(f"negative control '{name}' did not fire: {detail}")
+        self.cov["negative_controls"].append({"control": name, "fired": bool(fired), "detail": detail, "impl_dependent": bool(impl_dependent)})
+        if not fired:
+            # judged at the end of the run (finish): a control that did not fire is a machinery failure ONLY if the
+            # run found no violation - many controls are built from what the implementation returned, and a broken
+            # implementation must be reported as exit 1, never hidden behind exit 2
+            self.failed_controls.append(f"negative control '{name}' did not fire: {detail}")
+
+    def machinery_doubt(self, message):
+        """A condition that would be a machinery failure on a correct implementation (e.g. no usable case for a
+        control because every output was non-finite).  Deferred like a failed control."""
+        self.failed_controls.append(message)
 
     # --- verdicts
     def violation(self, signature, what, replay=None):
@@ -414,6 +422,9 @@ class Check:
         cov["known_findings_hit"] = self.known_hits
         if extra:
             cov.update(extra)
+        if self.failed_controls and not self.violations:
+            raise MachineryError("; ".join(self.failed_controls[:3]))
+        cov["controls_not_fired_on_a_violating_tree"] = list(self.failed_controls)
         if cov["states"] < 1 or cov["transitions"] < 1:
             raise MachineryError("no TLC model was run by this check")
         if not cov["samples"]:
